@@ -25,6 +25,7 @@ type Mem struct {
 	cond *Term
 	alt  *Mem
 	entry bool // base memory describing the entry state
+	born  int  // base (havoc) memory: number of objects allocated when it was created (-1: unknown)
 }
 
 const (
@@ -42,6 +43,8 @@ type MemCtx struct {
 	cache map[[2]int]*Term
 	// Opaque: objects returned as "fresh" by assumed contracts: new, but with unknown contents
 	Opaque map[int]bool
+	// NextObj points at the allocation counter of the unit: a havoc memory remembers its value at creation
+	NextObj *int
 }
 
 func NewMemCtx(c *Ctx) *MemCtx {
@@ -56,7 +59,13 @@ func (mc *MemCtx) newMem(m *Mem) *Mem {
 
 func (mc *MemCtx) Base(name string, s Sort, entry bool) *Mem {
 	n := mc.c.DeclareUF(name, []Sort{SAddr}, s)
-	return mc.newMem(&Mem{kind: mBase, S: s, name: n, entry: entry})
+	m := mc.newMem(&Mem{kind: mBase, S: s, name: n, entry: entry})
+	if mc.NextObj != nil {
+		m.born = *mc.NextObj
+	} else {
+		m.born = -1
+	}
+	return m
 }
 
 func (mc *MemCtx) FreshBase(prefix string, s Sort) *Mem {
@@ -165,7 +174,11 @@ func (mc *MemCtx) Read(m *Mem, a *Term) *Term {
 		} else if m.entry {
 			r = c.EntryApp(m.name, m.S, a)
 		} else {
-			r = c.App(m.name, m.S, a)
+			if m.S.K == KAddr && m.born >= 0 {
+				r = c.BornApp(m.name, m.S, m.born, a)
+			} else {
+				r = c.App(m.name, m.S, a)
+			}
 		}
 	case mStore:
 		eq := c.Eq(a, m.addr)
